@@ -108,6 +108,13 @@ def apply_kind(kind, args, kwargs):
         return 0
     if kind == 'raise_ve':
         raise ValueError('catalogue')
+    if kind == 'nested_glom_fail':
+        # a re-entrant glom call that fails; the callable renders the error (as logging would) and re-raises
+        try:
+            glom.glom(['Nested'], {'internal': ['val']})
+        except Exception as exc:
+            str(exc)
+            raise
     if kind == 'raise_multiline':
         raise ValueError('first line\n\n    ^^^\n~~~~\nlast line of the message')
     if kind == 'raise_glom':
